@@ -91,11 +91,12 @@ impl<'a, P: ?Sized + PathImpl> PathMutImpl<'a, P> {
 		}
 
 		// Disambiguate if the path is empty and one of the following is true:
-		// - `segment` looks like a scheme and path is a the start.
+		// - `segment` looks like a scheme and path is relative and at the start.
 		// - `segment` is empty, path is absolute and following an authority.
 		// - `segment` is empty, path is relative.
 		let disambiguate = self.is_empty()
-			&& ((self.start == 0 && segment.looks_like_scheme()) || segment.is_empty());
+			&& ((self.start == 0 && self.is_relative() && segment.looks_like_scheme())
+				|| segment.is_empty());
 
 		if disambiguate {
 			let start = self.first_segment_offset();
